@@ -257,7 +257,8 @@ def mres_part(res, work, tier):
 
 def seq_cfg(work, name, base, invs, subst=None, emit=False):
     sub = dict(subst or {})
-    sub["EmitReplays"] = "TRUE" if emit else "FALSE"
+    sub["EmitReplays"] = "FALSE"
+    sub["EmitEdges"] = "TRUE" if emit else "FALSE"     # one history per generated transition (edge cover)
     txt = open(os.path.join(SPEC, "mc", base + ".cfg")).read()
     import re
     txt = re.sub(r"(?m)^\s*INVARIANT\s+\S+\s*$\n?", "", txt)
@@ -266,8 +267,6 @@ def seq_cfg(work, name, base, invs, subst=None, emit=False):
         if n == 0:
             raise ToolError("cfg %s has no constant %s" % (base, k))
     txt += "\n" + "\n".join("INVARIANT " + i for i in invs) + "\n"
-    if emit:
-        txt += "INVARIANT Inv_Emit\n"
     p = work.path(name + ".cfg")
     open(p, "w").write(txt)
     return p
@@ -285,7 +284,8 @@ def check_seq(prop, tier):
         r = require_ok(tlc("MCSeq", cfg, work, workers=8, timeout=6000), "model check of %s" % prop)
         res.add(states=r["distinct"], transitions=r["generated"], depth=r["depth"], mc_wall_s=round(r["wall"], 1),
                 checker_cmd="tlc MCSeq (%s) INVARIANTS %s" % (base, " ".join(SEQ_INV[prop])))
-        replays = r["prints"].get("REPLAY", [])
+        replays = r["prints"].get("EDGE", [])
+        res.add(model_transitions_emitted=len(replays))
         if tier == "thorough":
             # the deeper configuration (ids <= 3, <= 5 calls, ~870k states) is checked without emitting replays
             cfgt = seq_cfg(work, "mct", "MCSeq_thorough", SEQ_INV[prop], emit=False)
@@ -295,7 +295,7 @@ def check_seq(prop, tier):
             cfgb = seq_cfg(work, "mcb", "MCSeq_quick", SEQ_INV[prop], subst={"Shapes": "ShapesB", "WithUpdates": "TRUE", "MaxLen": "3"}, emit=True)
             rb = require_ok(tlc("MCSeq", cfgb, work, workers=8, timeout=6000), "model check (second kind representatives, all update kinds)")
             res.add(states=rb["distinct"], transitions=rb["generated"])
-            replays += rb["prints"].get("REPLAY", [])
+            replays += rb["prints"].get("EDGE", [])
         # 2. regression witnesses / non-vacuity
         wit = {"C01": ("DevPlainNoReduce", "D1"), "C02": ("DevPlainNoReduce", "D1"), "C06": ("DevZeroDisplaySpin", "D4")}
         if prop in wit:
@@ -336,7 +336,7 @@ def check_seq(prop, tier):
                 raise ToolError("regression witness: the instance with the zero-display spin (D4) must have a non-terminating lasso")
             res.add(states=rl["distinct"], transitions=rl["generated"], liveness_states=rl["distinct"], liveness_witness_D4="lasso found")
         # 3. specification -> implementation: the model's histories replayed in the real code
-        cap = 800 if tier == "quick" else 20000
+        cap = 1500 if tier == "quick" else 60000
         if len(replays) > cap:
             step = len(replays) // cap + 1
             replays = replays[rng.below(step)::step]
